@@ -22,7 +22,9 @@ REGISTRY = {
             'and sorted canonical annotations re-parse to themselves (C01 parse_serialize, modulo dict order / {} which == ignores). '
             'The model is tied to /repo by differential correspondence over generated '
             'annotations (length 0..25, all modification kinds, intervals at start/middle/end/adjacent, every shift in [-2n,2n], '
-            'all 0<=i<=j<=n, inplace False/True) and every clause is also evaluated directly on the implementation',
+            'all 0<=i<=j<=n, inplace False/True, and random chains of 2..5 editors applied to one object lineage, compared after every '
+            'step with the model and with the same step on a fresh object of the same value) and every clause is also evaluated '
+            'directly on the implementation',
     'note': 'trusted: Lean kernel, axioms propext/Classical.choice/Quot.sound, the correspondence harness and the wire codec, '
             'random.shuffle (its permutation is read from the implementation and fed to the model), the parser/serializer and '
             'mass() are used as black boxes by the oracle (re-parse and mass clauses). Known finding: an interval that wraps '
@@ -341,7 +343,196 @@ def o_split(c):
 
 
 CORR_OPS = ('reverse', 'shift', 'shuffle', 'sort', 'slice', 'split')
-ORACLES = {'reverse': o_reverse, 'shift': o_shift, 'shift_identity': o_shift_identity, 'shuffle': o_shuffle, 'sort': o_sort, 'slice': o_slice, 'split': o_split}
+# ------------------------------------------------------------------------------------------------ chains on one object lineage
+
+CHAIN_OPS = ('rev', 'shift', 'shuf', 'sort', 'slice', 'strip', 'condense', 'copy', 'split', 'discard')
+
+
+def _call(x, st, inplace):
+    op = st[0]
+    if op == 'rev':
+        return x.reverse(inplace=inplace, swap_terms=st[1])
+    if op == 'shift':
+        return x.shift(st[1], inplace=inplace)
+    if op == 'shuf':
+        return x.shuffle(st[1], inplace=inplace)
+    if op == 'sort':
+        return x.sort_residues(inplace=inplace)
+    if op == 'slice':
+        return x.slice(st[1], st[2], inplace=inplace)
+    if op == 'strip':
+        return x.strip(inplace=inplace)
+    if op == 'condense':
+        return x.condense_static_mods(inplace=inplace)
+    raise KeyError(op)
+
+
+def apply_step(x, st):
+    """one step on an object lineage: in-place steps keep the object, the others continue with the returned object;
+    `discard` calls a non-in-place editor and throws the result away (the object must be unaffected)"""
+    op = st[0]
+    if op == 'copy':
+        return x.copy()
+    if op == 'split':
+        list(x.split())
+        return x
+    if op == 'discard':
+        _call(x, st[1], False)
+        return x
+    inplace = bool(st[-1])
+    r = _call(x, st, inplace)
+    if inplace:
+        if r is not None:
+            raise AssertionError(f'{op}(inplace=True) returned {r!r}')
+        return x
+    return r
+
+
+def fresh_of(x):
+    return annot.undump(annot.dump(x, sort_internal=False))
+
+
+def gen_chain(rng, a, forced=None):
+    """2..5 steps, generated along a fresh lineage so that every step is applicable"""
+    steps = []
+    cur = fresh_of(a)
+    want = rng.randint(2, 5)
+    tries = 0
+    while len(steps) < want and tries < 30:
+        tries += 1
+        n = len(cur._sequence)
+        if forced and len(steps) < len(forced):
+            op = forced[len(steps)]
+        else:
+            op = rng.choice(['rev', 'shift', 'shuf', 'sort', 'sort', 'slice', 'strip', 'condense', 'copy', 'split', 'discard'])
+        ip = rng.random() < 0.45
+
+        def mk(op):
+            if op == 'rev':
+                return ['rev', rng.random() < 0.3, ip]
+            if op == 'shift':
+                return ['shift', rng.randint(-2 * n, 2 * n), ip]
+            if op == 'shuf':
+                return ['shuf', rng.randint(0, 10 ** 6), ip]
+            if op == 'sort':
+                return ['sort', ip]
+            if op == 'slice':
+                i = rng.randint(0, n - 1)
+                return ['slice', i, rng.randint(i + 1, n), ip]
+            if op == 'strip':
+                return ['strip', ip]
+            if op == 'condense':
+                return ['condense', ip]
+            return [op]
+
+        if op == 'discard':
+            inner = mk(rng.choice(['rev', 'shift', 'shuf', 'sort', 'slice']))
+            inner[-1] = False
+            st = ['discard', inner]
+        else:
+            st = mk(op)
+        if op == 'strip' and rng.random() < 0.7:
+            continue                                   # keep most chains modified
+        try:
+            nxt = apply_step(fresh_of(cur), st)
+        except Exception:  # noqa
+            continue
+        steps.append(st)
+        cur = fresh_of(nxt)
+    return steps
+
+
+def chain_line(c):
+    """protocol line: the model's composition of the same chain (shuffle permutations and the result of steps outside the
+    model are read along a fresh lineage)"""
+    _, d, steps = c
+    cur = annot.undump(d)
+    out = []
+    for st in steps:
+        op = st[0]
+        n = len(cur._sequence)
+        nxt = apply_step(fresh_of(cur), st)
+        if op == 'rev':
+            out.append(f'rev {int(st[1])}')
+        elif op == 'shift':
+            out.append(f'shift {st[1]}')
+        elif op == 'shuf':
+            out.append('shuf ' + ','.join(map(str, cc.read_perm(cur, st[1]))))
+        elif op == 'sort':
+            out.append('sort')
+        elif op == 'slice':
+            out.append(f'slice {st[1]} {st[2]}')
+        elif op == 'strip':
+            out.append('strip')
+        elif op == 'condense':
+            out.append('set ' + annot.dump(nxt, sort_internal=False))
+        else:
+            out.append(op)
+        cur = fresh_of(nxt)
+    return 'chain\t' + d + '\t' + '\t'.join(out)
+
+
+def chain_impl(c):
+    """the stateful lineage: states after every step"""
+    _, d, steps = c
+    x = annot.undump(d)
+    out = []
+    for st in steps:
+        try:
+            x = apply_step(x, st)
+        except (ZeroDivisionError, ValueError, KeyError, IndexError) as e:
+            out.append('ERR:' + type(e).__name__)
+            break
+        out.append(annot.dump(x))
+    return '~'.join(out)
+
+
+def o_chain(c):
+    """after every step the object that has a history must equal the same step applied to a fresh object with the same
+    value (rebuilt from its field dump, and - in the re-parse domain - from its ProForma string)"""
+    from peptacular.proforma.proforma_parser import parse
+    _, d, steps = c
+    x = annot.undump(d)
+    for idx, st in enumerate(steps):
+        prev = fresh_of(x)
+        prev_s = None
+        if not cc.is_odd(prev) and cc.roundtrips(prev):
+            prev_s = prev.serialize()
+        try:
+            fr = apply_step(fresh_of(prev), st)
+            ferr = None
+        except Exception as e:  # noqa
+            fr, ferr = None, type(e).__name__
+        try:
+            x = apply_step(x, st)
+            xerr = None
+        except Exception as e:  # noqa
+            xerr = type(e).__name__
+        where = f'step {idx + 1} {st} of chain {steps} on {d}'
+        if ferr or xerr:
+            if ferr != xerr:
+                return f'{where}: object with history raises {xerr}, fresh object raises {ferr}'
+            return None
+        if annot.dump(x) != annot.dump(fr):
+            return (f'{where}: the object with history gives {x.serialize()!r} [{annot.dump(x)}], the same step on a fresh '
+                    f'object of the same value gives {fr.serialize()!r} [{annot.dump(fr)}]')
+        if st[0] == 'split':
+            p1 = [annot.dump(p) for p in x.split()]
+            p2 = [annot.dump(p) for p in fresh_of(prev).split()]
+            if p1 != p2:
+                return f'{where}: split pieces differ between the object with history and a fresh object'
+        if prev_s is not None:
+            try:
+                fr2 = apply_step(parse(prev_s), st)
+            except Exception as e:  # noqa
+                return f'{where}: raises {type(e).__name__} on the re-parsed value {prev_s!r} only'
+            if cc.norm_dump(fr2) != cc.norm_dump(x):
+                return (f'{where}: the object with history gives {x.serialize()!r}, the same step on parse({prev_s!r}) gives '
+                        f'{fr2.serialize()!r}')
+    return None
+
+
+ORACLES = {'chain': o_chain, 'reverse': o_reverse, 'shift': o_shift, 'shift_identity': o_shift_identity, 'shuffle': o_shuffle, 'sort': o_sort, 'slice': o_slice, 'split': o_split}
 
 
 # ------------------------------------------------------------------------------------------------ corpus
@@ -474,6 +665,25 @@ def run(chk):
     unc = {k: v for k, v in cover.report().items() if v}
     chk.notes.append('reach: lines of the modelled functions not executed by the correspondence inputs: '
                      + (json.dumps(unc) if unc else 'none'))
+    # ---------------------------------------------------------------- chains of editors on one object lineage
+    nch = 500 if tier == 'quick' else 5000
+    patterns = [None, None, None, ['sort', 'rev', 'sort'], ['sort', 'shift', 'sort'], ['sort', 'shuf', 'sort'],
+                ['sort', 'slice', 'sort'], ['discard', 'rev', 'sort'], ['shuf', 'sort', 'shuf'], ['slice', 'rev', 'slice'],
+                ['rev', 'split', 'rev'], ['condense', 'sort', 'rev'], ['shift', 'copy', 'shift']]
+    chains = []
+    base = [a for a in anns if len(a._sequence) >= 2 and not cc.out_of_range_keys(a)]
+    for idx in range(nch):
+        a = base[idx % len(base)]
+        st = gen_chain(rng, a, patterns[idx % len(patterns)])
+        if len(st) >= 2:
+            chains.append(('chain', annot.dump(a, sort_internal=False), st))
+            for s_ in st:
+                chk.count('chain step:' + (s_[0] if s_[0] != 'discard' else 'discard ' + s_[1][0]))
+    with cover:
+        chk.correspond('chain', DRV, chains, chain_line, chain_impl, compare=lambda im, m: im == canon_reply(m),
+                       nontrivial_fn=nontrivial)
+    cc.ranked_oracle(chk, 'chain', chains, o_chain, classify, key_fn=repr, nontrivial_fn=lambda c: nontrivial(c, None))
+
     if tier == 'thorough':
         chk.exhaustive = True   # i,j and shift amounts are enumerated completely for every generated annotation
 
